@@ -42,6 +42,7 @@ class C09(ScanCheck):
                 K = sc.cp(Kpt)
                 Dv = sc.cp(sc.fmul(8, sc.fmul(v, Kpt)))
                 combos = [(p, didx) for p in POS + [rng.getrandbits(rng.choice([7, 14, 21, 40]))]]
+                combos += [(p, (0, 0)) for p in POS[:8]]
                 combos += [(rng.choice(POS), (i, j)) for i in IDX for j in IDX if rng.random() < (0.25 if q else 1.0)]
                 for pos, idx in combos:
                     l = "recover %s %s %s %d %d %d" % (sc.sc(v).hex(), sc.sc(s).hex(), K.hex(), pos, idx[0], idx[1])
@@ -61,7 +62,7 @@ class C09(ScanCheck):
         # every owned output of sender-built transactions
         gen = C07()
         scen = []
-        plan = [(1, 10), (2, 10), (3, 25), (130, 2), (260, 2)] if q else [(1, 60), (2, 60), (3, 150), (130, 12), (260, 12)]
+        plan = [(1, 20), (2, 20), (3, 50), (130, 3), (260, 3)] if q else [(1, 60), (2, 60), (3, 150), (130, 12), (260, 12)]
         for n, k in plan:
             for _ in range(k):
                 s_, rk, feats = gen.scenario(rng, n, big=n > 3)
